@@ -11,6 +11,29 @@ NOTE = ("Trusted: Lean 4.33 kernel with axioms propext/Classical.choice/Quot.sou
         "generators); third-party kernels and binary64 rounding are parameters / checked oracles, not verified.")
 
 CHECKS = {
+    'C01': dict(
+        text="Lean theorems about the model of metar_msg for every table satisfying TableOK (grammar, groups = codes of the "
+             "significant rows below the MSA in order, at most three, 1-3-5 thresholds, no zero-okta or at/above-MSA group), "
+             "plus the pipeline lemma (metarize_tableOK) that every table metarize builds satisfies TableOK for any hits in "
+             "[0,1e5) ft, id column, parameters and third-party answers of the right shape. Tie: real pipeline, every level of "
+             "every generated scene, compared with the model and checked against the Lean spec predicate.",
+        ref='§6 C01', technique='Lean 4 proof (induction over tables / okta lists) + scene-level model/implementation correspondence'),
+    'C02': dict(
+        text="Lean theorems on the same model: lowest >=1-okta layer below the MSA is the first group, the ceiling is among the "
+             "groups, every group is a listed layer, NCD iff no layer reaches 1 okta and the high-cloud flag is down, NSC iff "
+             "cloud exists (layer at/above MSA or flag) but none is reportable. Same tie as C01.",
+        ref='§6 C02', technique='Lean 4 proof (invariant sig_level = 2*#flags over sorted tables) + correspondence'),
+    'C03': dict(
+        text="Lean theorems: the per-ceilometer sum of distinct time stamps equals the number of distinct (ceilometer, time) pairs "
+             "(members and chunk), count <= total, okta definition with both buffers, monotone in the count, range 0..8, code "
+             "prefix. Tie: n_hits/perc/okta/code of every table row of every scene against model and spec predicate.",
+        ref='§6 C03', technique='Lean 4 proof (Finset fibre counting, case analysis on buffers) + correspondence'),
+    'C04': dict(
+        text="Lean theorems: exact linear percentile between min and max and permutation-invariant; look-back selection is a "
+             "non-empty suffix (error branch unreachable); base inside the member hits for any percentile routine with the "
+             "between-property and any exclusion list; statistics; fluffiness >= 0 for every LOWESS answer; code floored; tables "
+             "sorted. np.percentile's float result is a checked oracle; 'fluffiness finite' is a kernel property (monitored only).",
+        ref='§6 C04', technique='Lean 4 proof over Rat (mergeSort, interpolation bounds) + checked-oracle correspondence'),
     'C17': dict(
         text="Lean theorems C17_length/_char/_prefix/_at_most_three/_zero_never about the model of "
              "icao.significant_cloud for every integer sequence of any length; the model is tied to the real "
